@@ -114,6 +114,9 @@ def run(run, binfo):
                     # evaluated, and have been redefined in place since (q's own check objects are the same ones)
                     base['prehistory'] = {n: rng.choice(['@', '!', 'role:r2', 'not role:r0', 'rule:' + UNDEF[0]])
                                           for n in rng.sample(others, rng.randint(1, len(others)))}
+                elif len(cases) % 3 == 0:
+                    base['carrier'] = ['rules_none', 'dict', 'rules_other'][(len(cases) // 3) % 3]
+                    base['carrier_default'] = names[-1]
                 cases.append(base)
                 meta.append(('orig', s_i, q, tuple(roles)))
                 if partner:
@@ -126,6 +129,10 @@ def run(run, binfo):
             r3['probe'] = 'rule:' + UNDEF[1]
             cases.append(base_case(rules=r3, default=default, rule=('name', 'probe'), creds={'roles': roles},
                                    custom=custom))
+            # how the rule set reaches the enforcer must not matter: a dict, or a Rules object carrying the same / another /
+            # no default rule of its own
+            cases[-1]['carrier'] = ['rules_none', 'rules_same', 'dict', 'rules_other', 'rules_shared'][len(cases) % 5]
+            cases[-1]['carrier_default'] = names[0]
             meta.append(('probe', s_i, UNDEF[1], tuple(roles)))
             cases.append(base_case(rules=r3, default=default, rule=('name', UNDEF[1]), creds={'roles': roles},
                                    custom=custom))
